@@ -592,13 +592,17 @@ def table_row_swapped_jw(row, primary_ops: List, op2idx: Dict):
     op2: Op = primary_ops[row[2]]
 
     # remember: all possible operators: I Z + -
+    # both spellings of `BasisHalfSpin` are accepted: "sigma_+", "sigma_-", "sigma_z" and
+    # "+", "-", "Z" (the one used by `renormalizer.model.h_qc.qc_model`)
+    def count(op: Op, *symbols):
+        return sum(op.split_symbol.count(s) for s in symbols)
     # new sigma_z produced for dof1 by op2
-    op1_new_sigma_z = (op1.split_symbol.count("sigma_+") + op1.split_symbol.count("sigma_-")) % 2
+    op1_new_sigma_z = count(op1, "sigma_+", "sigma_-", "+", "-") % 2
     # similar except by op2
-    op2_new_sigma_z = (op2.split_symbol.count("sigma_+") + op2.split_symbol.count("sigma_-")) % 2
+    op2_new_sigma_z = count(op2, "sigma_+", "sigma_-", "+", "-") % 2
     # determine the coefficient
-    op1_n_sigma_plus = op1.split_symbol.count("sigma_+")
-    op1_n_sigma_minus = op1.split_symbol.count("sigma_-")
+    op1_n_sigma_plus = count(op1, "sigma_+", "+")
+    op1_n_sigma_minus = count(op1, "sigma_-", "-")
     assert op1_n_sigma_plus in [0, 1]
     assert op1_n_sigma_minus in [0, 1]
     n_permutes = op2_new_sigma_z * (op1_n_sigma_plus + op1_n_sigma_minus)
@@ -608,14 +612,14 @@ def table_row_swapped_jw(row, primary_ops: List, op2idx: Dict):
         symbol_list = op.split_symbol
         if symbol_list[0] == "I":
             assert len(symbol_list) == 1
-            new_op = Op("sigma_z", op.dofs[0], qn=0)
-        elif symbol_list[0] == "sigma_z":
+            new_op = Op("Z", op.dofs[0], qn=0)
+        elif symbol_list[0] in ["sigma_z", "Z"]:
             if len(symbol_list) == 1:
                 new_op = Op.identity(op.dofs[0])
             else:
                 new_op = Op(" ".join(symbol_list[1:]), op.dofs[1:], qn=op.qn_list[1:])
-        elif symbol_list[0] == "sigma_+" or symbol_list[0] == "sigma_-":
-            new_op = Op("sigma_z " + op.symbol, [op.dofs[0]] + op.dofs, qn=[0] + op.qn_list)
+        elif symbol_list[0] in ["sigma_+", "sigma_-", "+", "-"]:
+            new_op = Op("Z " + op.symbol, [op.dofs[0]] + op.dofs, qn=[0] + op.qn_list)
         else:
             assert False
         return new_op
